@@ -194,6 +194,36 @@ func run19(c drv.Case, res *drv.Result) {
 			return
 		}
 	}
+	// every append touches the token generator once and its token must carry THAT time: the seconds of the tokens,
+	// as a multiset, are the seconds of the landed touches (a token dated from an earlier touch would sort before
+	// entries of its own second's predecessors and fall out of look-back windows)
+	// (single adder only: with concurrent adders a token may legitimately carry the time of a later touch by another
+	// adder, since the generator is touched and then read)
+	if p.Adders == 1 {
+		var touchSecs, tokenSecs []int64
+		for _, e := range w.Log(0) {
+			if e.Op == "touch" && e.Landed {
+				touchSecs = append(touchSecs, time.Unix(0, e.T).Unix())
+			}
+		}
+		for _, a := range adds {
+			k, _ := ksuid.Parse(a.token)
+			tokenSecs = append(tokenSecs, k.Time().Unix())
+		}
+		sort.Slice(touchSecs, func(i, j int) bool { return touchSecs[i] < touchSecs[j] })
+		sort.Slice(tokenSecs, func(i, j int) bool { return tokenSecs[i] < tokenSecs[j] })
+		if len(touchSecs) == len(tokenSecs) {
+			for i := range tokenSecs {
+				if tokenSecs[i] != touchSecs[i] {
+					res.Violate("token-time-not-its-own-touch", "multiset", "the %d-th smallest token second is %d, the %d-th smallest touch of the token generator happened in second %d: some token does not carry the time of its own append", i, tokenSecs[i], i, touchSecs[i])
+					break
+				}
+			}
+			res.Stat("token_times_matched_with_touches", int64(len(tokenSecs)))
+		} else {
+			res.Stat("appends_with_touch_count_mismatch", 1)
+		}
+	}
 	seqAdds := append([]added(nil), adds...)
 	sort.Slice(seqAdds, func(i, j int) bool { return seqAdds[i].call < seqAdds[j].call })
 	for i := 0; i < len(seqAdds); i++ {
